@@ -18,6 +18,31 @@ each is materialised and run (`mockery` with the probe template + `mockery showc
 validated against RecursiveTrace.tla.
 
 The regex Match tables the specs carry are recomputed with Go's regexp (drivers/rematch); disagreement = exit 2.
+
+Coverage table (statement clause / quantifier dimension -> where it is explored -> what is still thin)
+  all | listed | include | exclude decision rows    Selection.tla: every row x {top, package, both levels + decoy} x 8-11 `interfaces:`
+                                                     sections; explicit "" cancelling an inherited regex; package `all` overriding top
+                                                     both ways.  Thin: 3 (quick) / 7 patterns; no invalid regex (C09's).
+  once per `configs` entry                           forms null / config / configs[0..3]; entries in own or shared files.
+  declarations: exported, unexported, generic,       31+ declarations in one package: grouped decl, two files, defined instantiations
+   instantiated, embeds-only (local / std / mixed /   (IndexExpr / IndexListExpr), embeds-only x6, files with generated-code headers x3,
+   generic / alias), structs, func types, aliases     function / func-literal / method-local types incl. shadowing ones.
+  never mocked: non-interfaces, function-local,      structs, func types, basic, alias-to-struct, generic struct + instantiation, locals;
+   look-alike names                                   listed names differing only in case ("reader", "GEN"), absent names, listed struct.
+  undecided by the statement ("either")              aliases of interfaces, `type X Y`, union / mixed constraints, _test.go decls.
+                                                     Absent: `build-tags` (a tagged file becoming part of the package), non-ASCII /
+                                                     underscore names vs Unicode classes.
+  unconfigured packages                              decoy sibling + directory below a non-recursive package in every selection world;
+                                                     unrelated top-level directories (forests) in Recursive.tla.
+  recursive: sub-packages with Go files              9 directory kinds at any depth <= 3 (4/5 in "deep"): test-only, empty, tagged-only,
+                                                     testdata, _x, .x, vendor, nested module (the last six "either"); container packages
+                                                     (recursive package without Go files: known finding D19).
+  exclusion regex, both levels                       9 lists (single, multi-entry with inline flags / anchors / alternation), top x package
+                                                     x both; names that are string prefixes of a sibling ("a"/"ax"), upper-case names.
+  nearest configured recursive ancestor              <= 3 configured packages anywhere, rec T/F/unset at both levels, explicit sub-packages,
+                                                     nested pairs + unrelated recursive packages, payload (all / structname) per level;
+                                                     same package name in every directory of every other world.
+                                                     Absent: symlinked directories; `interfaces:` of a recursive parent (not "settings"?).
 """
 import concurrent.futures as cf
 import json
@@ -1009,7 +1034,7 @@ def run(ctx):
     rec_cases = rec_model(ctx, [("discovery", r_disc), ("inherit", r_inh), ("deep", r_deep)], thorough)
     tick(ctx, "parse_exports", t0)
     # ---- 2. replay through the binary
-    sel_chosen = sel_choose(ctx, sel_cases, len(sel_cases) if thorough else 1600)
+    sel_chosen = sel_choose(ctx, sel_cases, len(sel_cases) if thorough else 1400)
     rec_chosen = rec_choose(ctx, rec_cases, 7000 if thorough else 600)
     if ctx.replay:
         sel_chosen, rec_chosen = replay_filter(ctx, sel_cases, rec_cases)
